@@ -105,6 +105,11 @@ fn enc_case(em: &mut Emitter, unused: u8, bits: &[u8]) {
             let mut w2 = Vec::new(); BitString::encode_slice(bits, unused).write_encoded(Mode::Ber, &mut w2).unwrap();
             let l1 = bs.encode_ref().encoded_len(Mode::Der);
             let l2 = BitString::encode_slice(bits, unused).encoded_len(Mode::Ber);
+            // nested in a SEQUENCE the announced size of either encoder becomes the parent's length octets
+            let mut s1 = Vec::new(); bcder::encode::sequence((BitString::encode_slice(bits, unused), bs.encode_ref())).write_encoded(Mode::Der, &mut s1).unwrap();
+            let inner_len = 2 * w1.len();
+            let mut want = vec![0x30u8]; want.extend(crate::gen::ref_len_octets(inner_len)); want.extend_from_slice(&w1); want.extend_from_slice(&w1);
+            let l1 = if s1 == want { l1 } else { usize::MAX };
             (content, el, w1, w2, l1, l2)
         });
         match r {
@@ -161,5 +166,5 @@ pub fn run(em: &mut Emitter, rng: &mut Rng, thorough: bool) {
             }
         }
     }
-    for n in [126usize, 127, 128, 254, 255, 256, 65534] { enc_case(em, 3, &rng.bytes(n)); }
+    for n in (120usize..=132).chain(250..=260).chain([65533, 65534, 65535, 65536]) { for u in [0u8, 3, 7] { enc_case(em, u, &rng.bytes(n)); } }
 }
